@@ -1,33 +1,66 @@
 (* Model of /repo/src/command_line/files.rs (Files::sort and the six accessors) over an abstract
-   file tree.
+   file tree, AFTER the repair F23 (`WalkDir::new(path).follow_links(true)`).
 
-   Files::sort(paths): for each argument in order, WalkDir::new(arg).sort_by_file_name() yields the
-   argument itself and then, if it is a directory, its contents depth-first (pre-order), the
-   entries of every directory ordered by file name (OsStr order = byte-wise lexicographic on Unix;
-   `sort_by` is stable, names inside one directory are distinct anyway).  Every entry whose file
-   type is "regular file" is pushed to the bucket chosen by Path::extension(); directories are
-   traversed, never bucketed; anything else (symbolic links below the root, FIFOs, ...) is skipped
-   (walkdir does not follow links by default).
+   Files::sort(paths): for each argument in order,
+   WalkDir::new(arg).follow_links(true).sort_by_file_name() yields the argument itself and then, if
+   it is (or resolves to) a directory, its contents depth-first (pre-order), the entries of every
+   directory ordered by file name (OsStr order = byte-wise lexicographic on Unix; `sort_by` is
+   stable, names inside one directory are distinct anyway; the sorter compares the names of the
+   directory entries, before links are resolved).  Every entry whose file type is "regular file"
+   is pushed to the bucket chosen by Path::extension() of the entry's OWN path; directories are
+   traversed, never bucketed; FIFOs, sockets and devices are skipped.
+
+   Symbolic links (walkdir 2.5.0, `IntoIter::handle_entry` / `follow` / `check_loop`; the same for
+   an argument and for an entry below an argument once follow_links is set):
+     * the entry is replaced by `DirEntry::from_path(depth, path, follow = true)`: its file type is
+       that of `fs::metadata(path)` (the end of the link chain), its path stays the link's path;
+     * link to a regular file     -> a regular file with the LINK's name (extension of the link);
+     * link to a fifo/socket/device (e.g. /dev/null) -> skipped;
+     * link to a directory        -> traversed like a directory, its entries are `link/child`,
+                                     unless the directory is one of the directories currently being
+                                     traversed (walkdir's ancestor stack, compared by device+inode):
+                                     then the iterator yields Err("File system loop found: ..");
+     * `fs::metadata` fails (the target does not exist, or the chain of links is circular: ELOOP)
+                                  -> the iterator yields Err("IO error for operation on <path>: ..").
+   `let entry = entry?;` returns the FIRST error in walk order as the result of Files::sort (entries
+   visited before are dropped with the partial result); the command line prints
+   `unable to sort the given files by their function` and exits with code 1.
+
+   (Before F23 - WalkDir's default follow_links(false) - a link to a regular file, as an argument or
+   inside a directory, had the file type "symlink" and was skipped SILENTLY, so that the next .lp
+   file took its role; a link to a directory was traversed as an argument (follow_root_links) and
+   skipped inside a directory; a dangling link was an error as an argument and skipped inside a
+   directory.)
 
    Path::extension() of the last component: None if it contains no '.', None if its only '.' is
    the first byte (hidden file ".lp"), otherwise the bytes after the last '.' (possibly empty).
 
-   Outside the model: walkdir errors (missing path, unreadable directory), root symlinks (followed
-   by walkdir), non-UTF-8 names (`OsStr::to_str` = None -> bucket `other`; the byte model agrees,
-   because a name whose extension bytes are exactly lp/spec/ug/po is valid UTF-8 there). *)
+   Outside the model: other walkdir errors (missing path, unreadable directory), non-UTF-8 names
+   (`OsStr::to_str` = None -> bucket `other`; the byte model agrees, because a name whose extension
+   bytes are exactly lp/spec/ug/po is valid UTF-8 there). *)
 From Coq Require Import List Ascii String Bool Arith.
 Import ListNotations.
 Open Scope string_scope.
 
 (* ---------------------------------------------------------------- file trees *)
 
+(* what a symbolic link resolves to, as walkdir classifies it *)
+Inductive ltarget :=
+| LFile          (* a regular file *)
+| LSpecial       (* a fifo / socket / device: neither is_file() nor is_dir() *)
+| LDangling      (* fs::metadata fails: missing target or circular chain of links *)
+| LLoop.         (* a directory on walkdir's ancestor stack (one that contains the link) *)
+
 Inductive node :=
 | File (name : string)                       (* regular file *)
-| Special (name : string)                    (* symlink / fifo / socket: not is_file() *)
-| Dir (name : string) (children : list node).
+| Special (name : string)                    (* fifo / socket / device: not is_file(), not is_dir() *)
+| Dir (name : string) (children : list node)
+| Link (name : string) (target : ltarget)    (* symbolic link, not to a traversable directory *)
+| LinkDir (name : string) (children : list node).
+                                             (* symbolic link to a directory (not an ancestor) with these entries *)
 
 Definition node_name (n : node) : string :=
-  match n with File s | Special s | Dir s _ => s end.
+  match n with File s | Special s | Dir s _ | Link s _ | LinkDir s _ => s end.
 
 (* byte-wise lexicographic order on names *)
 Definition name_le (a b : string) : bool :=
@@ -45,24 +78,52 @@ Definition sort_nodes (l : list node) : list node := fold_right insert_node [] l
 Fixpoint sort_tree (n : node) : node :=
   match n with
   | Dir s cs => Dir s (sort_nodes (map sort_tree cs))
+  | LinkDir s cs => LinkDir s (sort_nodes (map sort_tree cs))
   | _ => n
   end.
 
-(* the paths of the regular files below (and including) a node, pre-order, entries as listed *)
-Fixpoint walk_listed (path : string) (n : node) : list string :=
+(* walkdir::Error as far as modelled: the path it names and whether it is a loop *)
+Inductive werror :=
+| EIo (path : string)       (* "IO error for operation on <path>: .." (dangling link) *)
+| ELoop (path : string).    (* "File system loop found: <path> points to an ancestor .." *)
+
+(* what the iterator yields, restricted to what Files::sort looks at *)
+Inductive visit :=
+| VFile (path : string)     (* Ok(entry) with entry.file_type().is_file() *)
+| VErr (e : werror).        (* Err(e) *)
+
+(* the regular files (and errors) below and including a node, pre-order, entries as listed *)
+Fixpoint walk_listed (path : string) (n : node) : list visit :=
   match n with
-  | File _ => [path]
-  | Special _ => []
-  | Dir _ cs =>
-    (fix go (l : list node) : list string :=
+  | File _ | Link _ LFile => [VFile path]
+  | Special _ | Link _ LSpecial => []
+  | Link _ LDangling => [VErr (EIo path)]
+  | Link _ LLoop => [VErr (ELoop path)]
+  | Dir _ cs | LinkDir _ cs =>
+    (fix go (l : list node) : list visit :=
        match l with
        | [] => []
        | c :: l' => (walk_listed (path ++ "/" ++ node_name c) c ++ go l')%list
        end) cs
   end.
 
-(* WalkDir::new(arg).sort_by_file_name() filtered by is_file(); the argument's path is its name *)
-Definition walk (n : node) : list string := walk_listed (node_name n) (sort_tree n).
+(* WalkDir::new(arg).follow_links(true).sort_by_file_name() as seen by Files::sort; the
+   argument's path is its name *)
+Definition walk (n : node) : list visit := walk_listed (node_name n) (sort_tree n).
+
+(* Result<_, walkdir::Error> *)
+Inductive wresult (A : Type) :=
+| WOk (a : A)
+| WErr (e : werror).
+Arguments WOk {A} a. Arguments WErr {A} e.
+
+(* `let entry = entry?;` in the loop: the paths up to the first error, or that error *)
+Fixpoint collect (vs : list visit) : wresult (list string) :=
+  match vs with
+  | [] => WOk []
+  | VErr e :: _ => WErr e
+  | VFile p :: r => match collect r with WOk ps => WOk (p :: ps) | WErr e => WErr e end
+  end.
 
 (* ---------------------------------------------------------------- Path::extension *)
 
@@ -142,7 +203,11 @@ Definition sort_paths (ps : list string) : files string :=
   sort_entries (map (fun p => (kind_of p, p)) ps).
 
 (* Files::sort *)
-Definition sort (args : list node) : files string := sort_paths (flat_map walk args).
+Definition sort (args : list node) : wresult (files string) :=
+  match collect (flat_map walk args) with
+  | WOk ps => WOk (sort_paths ps)
+  | WErr e => WErr e
+  end.
 
 (* accessors *)
 Definition left {A} (f : files A) : option A := nth_error (programs f) 0.
@@ -171,5 +236,5 @@ Arguments r_program {A}. Arguments r_user_guide {A}. Arguments r_proof_outline {
 Definition roles_of {A} (f : files A) : roles A :=
   mkroles (left f) (right f) (specification f) (program f) (user_guide f) (proof_outline f).
 
-(* EXTRACT: node sort_tree walk extension kind_of sort_paths sort left right specification program
+(* EXTRACT: ltarget node werror visit wresult collect sort_tree walk extension kind_of sort_paths sort left right specification program
    user_guide proof_outline roles_of *)
